@@ -964,8 +964,12 @@ func (fc *FuncCtx) execRunDefers(fr *Frame, st *State, x *ssa.RunDefers) {
 func (fc *FuncCtx) execSend(fr *Frame, st *State, x *ssa.Send) {
 	ch := fc.val(fr, st, x.Chan).(Scalar)
 	fc.atCallClauses(fr, st, x, "send", "send", map[string]Value{"ch": ch, "value": fc.val(fr, st, x.X)}, x.Pos())
-	cl := fc.compTerm(st, "CH!closed", "(Array Int Bool)")
-	fc.oblige(fr, st, "safety.sendclosed", "", tNot("(select "+cl+" "+ch.T+")"), x.Pos(), "send on a channel not known to be closed")
+	if fr.con != nil && fr.con.Flags["sendclosed"] != "" {
+		cl := fc.compTerm(st, "CH!closed", "(Array Int Bool)")
+		fc.oblige(fr, st, "safety.sendclosed", "", tNot("(select "+cl+" "+ch.T+")"), x.Pos(), "send on a channel that is not closed")
+	} else {
+		fc.u.Assumptions["a send does not hit a closed channel (checked only in functions whose contract sets `flag sendclosed`)"] = true
+	}
 	fc.blockingOp(fr, st, "send", x, ch.T, x.Pos())
 	fc.bumpEvent(st, "sends", ch.T, "true")
 }
